@@ -96,7 +96,7 @@ fn plan(quick: bool) -> Plan {
     if quick {
         Plan { parts: vec![(1, 3, 0), (2, 3, 0), (3, 2, 0)] }
     } else {
-        Plan { parts: vec![(1, 3, 0), (2, 3, 0), (3, 2, 0), (4, 2, 0), (5, 1, 0), (3, 3, 250_000), (5, 2, 60_000), (5, 3, 60_000)] }
+        Plan { parts: vec![(1, 3, 0), (2, 3, 0), (3, 2, 0), (4, 2, 0), (5, 1, 0), (3, 3, 1_500_000), (4, 3, 300_000), (5, 2, 150_000), (5, 3, 150_000)] }
     }
 }
 
@@ -158,6 +158,7 @@ fn shape(len: usize, nb: usize, configs: &[Vec<(u8, usize)>], mut idx: u64, seed
                 includes: vec![],
                 in_filter: mix(seed, salt, (lvl * 8 + b) as u64) % 3 == 0,
                 super_twice: st == 2 && mix(seed, salt, (100 + lvl * 8 + b) as u64) % 4 == 0,
+                call_before_super: st == 2 && mix(seed, salt, (200 + lvl * 8 + b) as u64) % 4 == 1,
             });
         }
         tpls.push(t);
@@ -209,9 +210,13 @@ impl<'a> Ref<'a> {
         }
         let owner = defs[i];
         let d = owner.blocks.iter().find(|x| x.name == b).unwrap();
-        let mut s = format!("[{}@{}:", b, mark(&owner.name));
+        let mut s = format!("[{}@{}{}:", b, mark(&owner.name), mark(&owner.tag));
         let mut again = String::new();
         if d.calls_super {
+            if d.call_before_super {
+                // `{% for i in range(end=2) %}{{ i }}{% endfor %}` written before super()
+                s.push_str("01");
+            }
             if i + 1 < defs.len() {
                 let up = self.level(view, b, defs, i + 1, depth + 1)?;
                 s.push_str(&up);
@@ -290,6 +295,8 @@ struct Outcome {
     renders: u32,
     render_errors: u32,
     block_renders: u32,
+    /// re-registrations of one template of an accepted chain
+    history_steps: u32,
     /// per template: "ok <text>" | "err <class>" | "skip" (cyclic call graph), in chain order
     render_results: Vec<String>,
 }
@@ -408,6 +415,56 @@ fn run_shape(tpls: &[TplS], orders: &[Vec<usize>]) -> Outcome {
             }
         }
     }
+    // re-register each template in turn (same blocks, new bodies: tag `v2`), without touching the
+    // others: every template must then render as in a fresh instance given the updated set, and
+    // the stored lineage (chunk ids included) must be the fresh one
+    if tpls.len() >= 2 && !o.call_cycle {
+        let mut tera = tera;
+        let mut cur: Vec<TplS> = tpls.to_vec();
+        for a in 0..tpls.len() {
+            cur[a].tag = "v2".to_string();
+            let res = catch(std::panic::AssertUnwindSafe(|| tera.add_raw_template(&cur[a].name, &cur[a].source())));
+            o.history_steps += 1;
+            match res {
+                Ok(Ok(())) => {}
+                other => {
+                    o.failure = Some(format!("re-registering `{}` with the same blocks and new bodies failed: {:?}", cur[a].name, other.map(|r| r.map_err(|e| canon_err(&e)))));
+                    return o;
+                }
+            }
+            let (fresh_imp, fresh) = register(&cur, &(0..cur.len()).collect::<Vec<_>>());
+            let Some(fresh) = fresh else {
+                o.failure = Some(format!("a fresh instance rejects the set after `{}` was re-registered: {fresh_imp}", cur[a].name));
+                return o;
+            };
+            if real_derived(&tera) != real_derived(&fresh) {
+                o.failure = Some(format!(
+                    "after re-registering `{}` (same block names, new bodies) the derived data differs from a fresh instance given the same set: history {:?} vs fresh {:?}",
+                    cur[a].name,
+                    real_derived(&tera).tpls.iter().map(|(n, t)| (n.clone(), t.lineage_ids.clone())).collect::<Vec<_>>(),
+                    real_derived(&fresh).tpls.iter().map(|(n, t)| (n.clone(), t.lineage_ids.clone())).collect::<Vec<_>>()
+                ));
+                return o;
+            }
+            for t in &cur {
+                let mut r = Ref { tpls: &cur, written: BTreeMap::new(), depth_exceeded: false };
+                let want = r.render(&t.name);
+                if r.depth_exceeded {
+                    continue;
+                }
+                let got = class_of(&catch(std::panic::AssertUnwindSafe(|| tera.render(&t.name, &Context::new()))));
+                o.renders += 1;
+                let want_s = match &want {
+                    Ok(s) => format!("ok:{s}"),
+                    Err(_) => "err:rendering".to_string(),
+                };
+                if got != want_s {
+                    o.failure = Some(format!("after re-registering `{}` (same block names, new bodies): render of `{}`: engine `{got}`, reference `{want_s}`", cur[a].name, t.name));
+                    return o;
+                }
+            }
+        }
+    }
     o
 }
 
@@ -436,7 +493,7 @@ fn child_exhaustive(quick: bool, seed: u64, k: u64, stride: u64) {
             let o = run_shape(&tpls, &orders);
             writeln!(
                 w,
-                "{}\t{}\t{}\t{}\t{}\t{}\t{}\t{}\t{}",
+                "{}\t{}\t{}\t{}\t{}\t{}\t{}\t{}\t{}\t{}",
                 base + idx,
                 o.imp,
                 o.failure.clone().unwrap_or_default().replace(['\t', '\n'], " "),
@@ -445,7 +502,8 @@ fn child_exhaustive(quick: bool, seed: u64, k: u64, stride: u64) {
                 o.render_errors,
                 o.block_renders,
                 orders.len(),
-                o.render_results.join("|")
+                o.render_results.join("|"),
+                o.history_steps
             )
             .unwrap();
             idx += stride;
@@ -524,6 +582,11 @@ fn shrink(mut tpls: Vec<TplS>, fails: &dyn Fn(&[TplS]) -> bool) -> Vec<TplS> {
                 if tpls[i].blocks[bi].super_twice {
                     let mut d = tpls.clone();
                     d[i].blocks[bi].super_twice = false;
+                    cands.push(d);
+                }
+                if tpls[i].blocks[bi].call_before_super {
+                    let mut d = tpls.clone();
+                    d[i].blocks[bi].call_before_super = false;
                     cands.push(d);
                 }
                 if tpls[i].blocks[bi].in_filter {
@@ -639,6 +702,8 @@ fn main() {
             report.count_n("renders.super-without-parent-definition", f[5].parse().unwrap_or(0));
             report.count_n("render_block calls", f[6].parse().unwrap_or(0));
             report.count_n("registrations", f[7].parse().unwrap_or(0));
+            report.count_n("history.re-registrations of one template (same blocks, new bodies)", f.get(9).and_then(|x| x.parse().ok()).unwrap_or(0));
+            report.oracle_checks += f.get(9).and_then(|x| x.parse::<u64>().ok()).unwrap_or(0);
             report.oracle_checks += 1 + f[4].parse::<u64>().unwrap_or(0) + f[6].parse::<u64>().unwrap_or(0);
             let renders: Vec<String> = f.get(8).map(|r| r.split('|').filter(|x| !x.is_empty()).map(|x| x.to_string()).collect()).unwrap_or_default();
             rows.push(Row { idx, imp: f[1].to_string(), failure: f[2].to_string(), renders });
@@ -673,7 +738,7 @@ fn main() {
     }
     for (i, tpls) in shapes.iter().enumerate() {
         // the render skeleton of the model writes one super() per block
-        let twice = tpls.iter().any(|t| t.blocks.iter().any(|b| b.super_twice));
+        let twice = tpls.iter().any(|t| t.blocks.iter().any(|b| b.super_twice || b.call_before_super));
         if rows[i].renders.len() == tpls.len() && !twice {
             let w = set_wire(&[], tpls);
             for (k, t) in tpls.iter().enumerate() {
@@ -713,6 +778,9 @@ fn main() {
         }
         if tpls.iter().any(|t| t.blocks.iter().any(|b| b.super_twice)) {
             report.count("shape.super-called-twice-in-a-block");
+        }
+        if tpls.iter().any(|t| t.blocks.iter().any(|b| b.call_before_super)) {
+            report.count("shape.other-function-called-before-super");
         }
         if !r.failure.is_empty() {
             fails.push(i);
